@@ -236,7 +236,7 @@ func init() {
 		Sections: func(tier core.Tier, seed int64) []core.Section {
 			nRandom := 30000
 			if tier == core.Thorough {
-				nRandom = 2000000
+				nRandom = 12000000
 			}
 			var secs []core.Section
 			secs = append(secs, core.Section{Name: "builtin-x-receiver-x-args", Exhaustive: true, N: len(pairs),
